@@ -66,6 +66,7 @@ MC_PLANS = {
     "C05": ("solve:base,cyclic,locks", 40, 300, False),
     "C07": ("solve:clean", 120, 1200, False),
     "C08": ("solve:direct", 12, 60, False),
+    "C13": ("history:base,hints,soft,excl", 40, 400, True),
     "C14": ("solve:soft,softhints,softconflict", 50, 500, False),
 }
 
@@ -381,6 +382,7 @@ MC_INVARIANTS = {
     "C05": ["C05_Supported"],
     "C07": ["C07_Preferred"],
     "C08": ["C08_DirectBest"],
+    "C13": ["C01_ValidOnSat", "C02_UnsatSound", "C02_NoSoftError", "C05_Supported"],
     "C14": ["C14_SoftObliged", "C02_NoSoftError", "C01_ValidOnSat"],
 }
 
@@ -436,13 +438,14 @@ def mc_lazycdcl(prop, tier, seed, plan, n, liveness=False, timeout=None):
     for line in out.splitlines():
         if line.startswith('"OUTCOME|'):
             f = line.strip().strip('"').split("|")
-            model.setdefault(int(f[1]), set()).add((f[2], f[3]))
+            model.setdefault(f[1], set()).add((f[2], f[3]))       # key "caseid.solveindex"
     real = {}
     cur = None
     with open(trace) as f:
         for line in f:
             if '"ev":"begin"' in line:
-                cur = json.loads(line)["id"]
+                b = json.loads(line)
+                cur = f"{b['id']}.{b['k']}"
             elif '"ev":"result"' in line:
                 e = json.loads(line)
                 real[cur] = (e["kind"], ",".join(str(x) for x in sorted(e["sol"])))
@@ -462,7 +465,7 @@ def mc_lazycdcl(prop, tier, seed, plan, n, liveness=False, timeout=None):
         os.makedirs(d, exist_ok=True)
         path = os.path.join(d, f"case{cid}_model_verdict.json")
         json.dump({"property": prop, "case_id": cid, "real": real[cid], "model_outcomes": sorted(model[cid]),
-                   "trace": [json.loads(x) for x in vlib.extract_run(trace, cid)]}, open(path, "w"))
+                   "trace": [json.loads(x) for x in vlib.extract_run(trace, int(cid.split(".")[0]))]}, open(path, "w"))
         viol.append((f"real verdict {real[cid][0]} for case {cid} is not reachable in the canonical model", path))
     info = {"mc_cases": cnt, "mc_states": st["distinct"], "mc_transitions": st["states"],
             "mc_invariants": MC_INVARIANTS[prop] + (["Termination (liveness, weak fairness)"] if liveness else []),
